@@ -262,6 +262,13 @@ pub fn hint_mutants<S: MlDsa>(sig: &[u8], p: &mut Prng) -> Vec<(String, Vec<u8>)
         let r = total + p.below((om - total) as u64) as usize;
         mk("non-zero random unused slot", &|y| y[r] = 7);
     }
+    // counts of EMPTY polynomials lowered (a decoder that only ever advances would not notice)
+    for i in 1..S::K {
+        if cnt(i) == cnt(i - 1) && cnt(i) > 0 {
+            mk(&format!("count of empty poly {} lowered by one", i), &|y| y[om + i] -= 1);
+            mk(&format!("count of empty poly {} set to 0", i), &|y| y[om + i] = 0);
+        }
+    }
     // a count raised by one so that it swallows a zero padding byte (index 0 after a larger index)
     if total < om && total > 0 { mk("last count raised over padding", &|y| y[om + S::K - 1] += 1); }
     v
@@ -332,6 +339,30 @@ pub fn verify<S: MlDsa>(seed: u64, nacc: usize, nrand: usize, stress: bool, out:
         for n in 0..om { h1[S::K - 1][255 - n] = 1; }
         let f1 = forge::<S>(&rho, &z, &h1, &mp);
         emit_verify::<S>(out, "3 forged, omega hints all in the last polynomial (accept)", &f1.pk, &mp, &f1.sig, &[], "pure", true);
+    }
+    // forged base whose hints sit in the first and last polynomial only (every polynomial between is empty)
+    {
+        let z = rand_z::<S>(&mut p, edge - 1);
+        let mut h: Vec<Poly> = vec![[0i32; 256]; S::K];
+        for n in [3usize, 77, 200] { h[0][n] = 1; }
+        for n in [5usize, 250] { h[S::K - 1][n] = 1; }
+        let mp = msg_of(&mut p, 11);
+        let f = forge::<S>(&rho, &z, &h, &mp);
+        emit_verify::<S>(out, "3 forged, hints in first and last polynomial only (accept)", &f.pk, &mp, &f.sig, &[], "pure", true);
+        for (name, s3) in hint_mutants::<S>(&f.sig, &mut p) {
+            if name.contains("empty poly") || name.contains("below previous") { emit_verify::<S>(out, &format!("3 hint (sparse forged base): {}", name), &f.pk, &mp, &s3, &[], "pure", true); }
+        }
+    }
+    // family 4w: over-long contexts with a signature made over the WRAPPED length byte (what a verifier
+    // that forgets the 255-byte rule, or applies it off by one, would reconstruct)
+    for (i, n) in [256usize, 257, 300, 511, 512, 65536 + 7].iter().enumerate() {
+        let ctx = p.bytes(*n);
+        let m = msg_of(&mut p, i as u64);
+        let mode = MODES[i % 4];
+        let mut mp = format_msg(mode, &ctx, &m);
+        mp[1] = (*n % 256) as u8;
+        let sig = S::internal_sign(&sk, &mp, p.arr32());
+        emit_verify::<S>(out, &format!("4w context of {} bytes, signature over the wrapped length byte", n), &pkb, &m, &sig, &ctx, mode, false);
     }
     // random byte strings as signatures (and as public keys)
     for i in 0..nrand {
